@@ -120,6 +120,12 @@ CHECKS = {
   design_ref="DESIGN.md §4 C02",
   note="Protocol theorems assume hFrame (observed by the snapshots) and state-independent `includes`; thread interleavings and hash seeds are sampled, not exhausted; Lark's internal state is covered only by the digests.",
   technique="Lean 4 proof of the sharing protocol + fresh-process differential (observation)"),
+ "C09": dict(
+  category="proof",
+  text="Lean 4 theorems at two levels. Entities (Model/Entity.lean, every entity class incl. the mob's DOT tracker and job-specific timers, time as Int on the 2^-10 ms grid): elapse b (elapse a e) is equal or equivalent (up to fields that are dead once a timer expired, with congruence of every method and view) to elapse (a+b) e, tick counts add, for all a,b >= 0, plus multi-way splits — cooldown, lasting, lastingStack, consumable, periodic, keydown, dot, programmedPeriodic, dynamicIntervalPeriodic, currentField; orderSword only partially, with the negation witness (known finding F10). Components (part files C09_Common/Mech/Wind/...): X_chunk_independent for the modelled component classes (same damage ticks as a multiset, equivalent states, equal views), with preserved invariants. Every entity method is compared with the real pydantic entity; and for ALL components of all jobs the property is evaluated directly on the component's own dispatcher on two restored copies of harvested checkpoints with boundary and random splits.",
+  design_ref="DESIGN.md §4 C09",
+  note="Trusted: Lean kernel + standard axioms; hand entity/component models tied by exact correspondence on the time grid; float behaviour off the grid is not modelled; known finding F10 (AdeleOrderComponent).",
+  technique="Lean 4 proof (loop-splitting lemmas per timer entity, lifted to components) + two-execution exploration on real dispatchers"),
 }
 
 NOT_YET = "check not built yet in this round (work in progress; see DESIGN.md §6 build order)"
